@@ -1161,6 +1161,14 @@ func wrapAny(val Node, targetType *Type) Node {
 			v.Left = wrapAny(v.Left, targetType)
 			v.T = targetType
 			return v
+		case *IndexExpression: // [[]][0]
+			v.Left = wrapAny(v.Left, &Type{Name: v.Left.Type().Name, Sub: targetType})
+			v.T = targetType
+			return v
+		case *DotExpression: // {a:[]}.a
+			v.Left = wrapAny(v.Left, &Type{Name: MAP, Sub: targetType})
+			v.T = targetType
+			return v
 		}
 		panic(fmt.Sprintf("internal error: untyped array: %s incompatible types: target %v, value %v", val.Token().Location(), targetType, valType))
 	}
@@ -1171,6 +1179,14 @@ func wrapAny(val Node, targetType *Type) Node {
 			return v
 		case *GroupExpression:
 			v.Expr = wrapAny(v.Expr, targetType)
+			return v
+		case *IndexExpression: // [{}][0]
+			v.Left = wrapAny(v.Left, &Type{Name: v.Left.Type().Name, Sub: targetType})
+			v.T = targetType
+			return v
+		case *DotExpression: // {a:{}}.a
+			v.Left = wrapAny(v.Left, &Type{Name: MAP, Sub: targetType})
+			v.T = targetType
 			return v
 		}
 		panic(fmt.Sprintf("internal error: untyped map: %s incompatible types: target %v, value %v", val.Token().Location(), targetType, valType))
